@@ -9,30 +9,12 @@ From BD.Daemon Require Import Model ProofsTick.
 Local Open Scope Z_scope.
 
 (* ---------------------------------------------------------------------------------------- *)
-(* the guard formula for schedules with an activation in the horizon                          *)
+(* the guard formula                                                                          *)
 (* ---------------------------------------------------------------------------------------- *)
-Definition in_horizon (m : Z) (sps : list spec) : Prop := forall sp, In sp sps -> next sp (60 * m - 1) <> None.
-Definition in_horizonb (m : Z) (sps : list spec) : bool :=
-  forallb (fun sp => match next sp (60 * m - 1) with Some _ => true | None => false end) sps.
-
-Lemma in_horizonb_spec : forall m sps, in_horizonb m sps = true <-> in_horizon m sps.
-Proof.
-  intros. unfold in_horizonb, in_horizon. rewrite forallb_forall. split; intros H sp Hin; specialize (H sp Hin).
-  - destruct (next sp (60 * m - 1)); congruence.
-  - destruct (next sp (60 * m - 1)); congruence.
-Qed.
-
-Lemma due_horizon : forall sp m, next sp (60 * m - 1) <> None -> due sp m = matches sp m.
-Proof.
-  intros sp m H. destruct (matches sp m) eqn:E.
-  - apply due_of_match. assumption.
-  - destruct (due sp m) eqn:D; [|reflexivity]. apply (due_iff_matches sp m H) in D. congruence.
-Qed.
-
-Lemma start_pass_horizon : forall s m f sp, next sp (60 * m - 1) <> None ->
+Lemma start_pass_matches : forall s m f sp,
   start_pass s m f sp = matches sp m && start_guard (status_of s f) m.
 Proof.
-  intros s m f sp H. unfold start_pass. rewrite (due_horizon sp m H).
+  intros s m f sp. unfold start_pass. rewrite (due_matches sp m).
   destruct (matches sp m) eqn:E; [|reflexivity]. destruct (due_of_match sp m E) as [_ ->]. reflexivity.
 Qed.
 
@@ -52,37 +34,37 @@ Section Tick.
   Hypothesis keys : NoDup (map fst (tbl s)).
 
   (* C09_start_iff: the number of Start calls for f issued by the tick of minute m *)
-  Theorem start_iff : forall f e, lookup f (tbl s) = Some e -> in_horizon m (starts e) ->
+  Theorem start_iff : forall f e, lookup f (tbl s) = Some e ->
     count (CStart f) (tick_calls s m) =
     if alive s && negb (mem f (susp s)) && start_guard (status_of s f) m then matching m (starts e) else 0%nat.
   Proof.
-    intros f e Hl Hh. rewrite (tick_count s m (CStart f) keys). cbn [call_file]. rewrite Hl.
+    intros f e Hl. rewrite (tick_count s m (CStart f) keys). cbn [call_file]. rewrite Hl.
     destruct (alive s); [|reflexivity]. destruct (mem f (susp s)); [reflexivity|]. cbn [negb andb file_count].
     rewrite String.eqb_refl.
-    rewrite (filter_ext_in (start_pass s m f) (fun sp => matches sp m && start_guard (status_of s f) m)).
+    rewrite (filter_ext (start_pass s m f) (fun sp => matches sp m && start_guard (status_of s f) m)).
     - apply length_filter_and.
-    - intros sp Hin. apply start_pass_horizon. apply Hh. assumption.
+    - intros sp. apply start_pass_matches.
   Qed.
 
-  Theorem stop_iff : forall f e, lookup f (tbl s) = Some e -> in_horizon m (stops e) ->
+  Theorem stop_iff : forall f e, lookup f (tbl s) = Some e ->
     count (CStop f) (tick_calls s m) =
     if alive s && negb (mem f (susp s)) && stop_guard (status_of s f) then matching m (stops e) else 0%nat.
   Proof.
-    intros f e Hl Hh. rewrite (tick_count s m (CStop f) keys). cbn [call_file]. rewrite Hl.
+    intros f e Hl. rewrite (tick_count s m (CStop f) keys). cbn [call_file]. rewrite Hl.
     destruct (alive s); [|reflexivity]. destruct (mem f (susp s)); [reflexivity|]. cbn [negb andb file_count].
     rewrite String.eqb_refl.
-    rewrite (filter_ext_in (stop_pass s m f) (fun sp => matches sp m && stop_guard (status_of s f))).
+    rewrite (filter_ext (stop_pass s m f) (fun sp => matches sp m && stop_guard (status_of s f))).
     - apply length_filter_and.
-    - intros sp Hin. unfold stop_pass. rewrite due_horizon by (apply Hh; assumption). reflexivity.
+    - intros sp. unfold stop_pass. rewrite due_matches. reflexivity.
   Qed.
 
-  Theorem restart_iff : forall f e, lookup f (tbl s) = Some e -> in_horizon m (restarts e) ->
+  Theorem restart_iff : forall f e, lookup f (tbl s) = Some e ->
     count (CRestart f) (tick_calls s m) = if alive s && negb (mem f (susp s)) then matching m (restarts e) else 0%nat.
   Proof.
-    intros f e Hl Hh. rewrite (tick_count s m (CRestart f) keys). cbn [call_file]. rewrite Hl.
+    intros f e Hl. rewrite (tick_count s m (CRestart f) keys). cbn [call_file]. rewrite Hl.
     destruct (alive s); [|reflexivity]. destruct (mem f (susp s)); [reflexivity|]. cbn [negb andb file_count].
-    rewrite String.eqb_refl. unfold matching. f_equal. apply filter_ext_in.
-    intros sp Hin. apply due_horizon. apply Hh. assumption.
+    rewrite String.eqb_refl. unfold matching. f_equal. apply filter_ext.
+    intros sp. apply due_matches.
   Qed.
 
   (* no call for a file the daemon does not know *)
@@ -101,39 +83,39 @@ Section Tick.
 
   (* the property's wording: a start for f is issued at m iff one of its start schedules matches m, it is not
      suspended, not running (and its status is readable) and its latest run started before m *)
-  Corollary start_in_iff : forall f e, lookup f (tbl s) = Some e -> in_horizon m (starts e) ->
+  Corollary start_in_iff : forall f e, lookup f (tbl s) = Some e ->
     (In (CStart f) (tick_calls s m) <->
      alive s = true /\ mem f (susp s) = false /\ start_guard (status_of s f) m = true /\
      exists sp, In sp (starts e) /\ matches sp m = true).
   Proof.
-    intros f e Hl Hh. rewrite <- count_pos_in, (start_iff f e Hl Hh), <- matching_pos.
+    intros f e Hl. rewrite <- count_pos_in, (start_iff f e Hl), <- matching_pos.
     destruct (alive s), (mem f (susp s)), (start_guard (status_of s f) m); cbn [negb andb]; split; intro H;
       try lia; try (destruct H as (? & ? & ? & ?); try discriminate; try assumption); tauto.
   Qed.
 
-  Corollary stop_in_iff : forall f e, lookup f (tbl s) = Some e -> in_horizon m (stops e) ->
+  Corollary stop_in_iff : forall f e, lookup f (tbl s) = Some e ->
     (In (CStop f) (tick_calls s m) <->
      alive s = true /\ mem f (susp s) = false /\ stop_guard (status_of s f) = true /\
      exists sp, In sp (stops e) /\ matches sp m = true).
   Proof.
-    intros f e Hl Hh. rewrite <- count_pos_in, (stop_iff f e Hl Hh), <- matching_pos.
+    intros f e Hl. rewrite <- count_pos_in, (stop_iff f e Hl), <- matching_pos.
     destruct (alive s), (mem f (susp s)), (stop_guard (status_of s f)); cbn [negb andb]; split; intro H;
       try lia; try (destruct H as (? & ? & ? & ?); try discriminate; try assumption); tauto.
   Qed.
 
-  Corollary restart_in_iff : forall f e, lookup f (tbl s) = Some e -> in_horizon m (restarts e) ->
+  Corollary restart_in_iff : forall f e, lookup f (tbl s) = Some e ->
     (In (CRestart f) (tick_calls s m) <->
      alive s = true /\ mem f (susp s) = false /\ exists sp, In sp (restarts e) /\ matches sp m = true).
   Proof.
-    intros f e Hl Hh. rewrite <- count_pos_in, (restart_iff f e Hl Hh), <- matching_pos.
+    intros f e Hl. rewrite <- count_pos_in, (restart_iff f e Hl), <- matching_pos.
     destruct (alive s), (mem f (susp s)); cbn [negb andb]; split; intro H;
       try lia; try (destruct H as (? & ? & ?); try discriminate; try assumption); tauto.
   Qed.
 
   (* F9b excluded by a decidable premise: at most one start schedule of f matches m *)
-  Corollary start_once : forall f e, lookup f (tbl s) = Some e -> in_horizon m (starts e) ->
+  Corollary start_once : forall f e, lookup f (tbl s) = Some e ->
     (matching m (starts e) <= 1)%nat -> (count (CStart f) (tick_calls s m) <= 1)%nat.
-  Proof. intros f e Hl Hh H1. rewrite (start_iff f e Hl Hh). destruct (_ && _); lia. Qed.
+  Proof. intros f e Hl H1. rewrite (start_iff f e Hl). destruct (_ && _); lia. Qed.
 End Tick.
 
 (* ---------------------------------------------------------------------------------------- *)
